@@ -197,6 +197,10 @@ __CPROVER_ensures((__CPROVER_return_value != 0 && COP_K < __verif_cop_slen) ==>
 #define COP_TAG_CLASS(t) ((t) == TAG_STRING ? 1 : (t) == TAG_ARRAY ? 2 : 0)
 uint32_t cop_deserialize_value(const uint8_t *buf, uint32_t buf_size, NanoValue *out, VmHeap *heap)
 __CPROVER_requires(VERIF_FRESH(buf, buf_size))
+#ifdef COP_ALLOC_BOUND
+/* every caller hands a received payload: cop_recv_header has checked payload_len <= COP_MAX_PAYLOAD (C16.recv.header) */
+__CPROVER_requires(buf_size <= COP_MAX_PAYLOAD)
+#endif
 __CPROVER_requires(__CPROVER_POINTER_OFFSET(buf) != 0 || buf_size == 0 || COP_TAG_CLASS(buf[0]) == COP_SAFE_CLASS)
 __CPROVER_requires(VERIF_FRESH(out, sizeof(*out)))
 __CPROVER_requires(VERIF_FRESH(heap, sizeof(*heap)))
